@@ -63,7 +63,7 @@ package ssh
 //@ pred bytes64(b, n) = b[0] == (n >> 56) % 256 && b[1] == (n >> 48) % 256 && b[2] == (n >> 40) % 256 && b[3] == (n >> 32) % 256 &&
 //@ |   b[4] == (n >> 24) % 256 && b[5] == (n >> 16) % 256 && b[6] == (n >> 8) % 256 && b[7] == n % 256
 //@ pred appended(r, b, n) = len(r) == len(b) + n && forall(i, 0, len(b), r[i] == old(b[i])) &&
-//@ |   implies(cap(b) >= len(b) + n, ref(r) == ref(b) && off(r) == off(b))
+//@ |   implies(cap(b) >= len(b) + n, ref(r) == ref(b) && off(r) == off(b) && cap(r) == cap(b))
 
 //@ func parseString
 //@ props C24
